@@ -76,6 +76,7 @@ structure GState where
   tr : Track := {}           -- spec
   ft : FlapTrack := {}       -- spec: levels so far (newest first) and flapping flag
   lastEv : Option Ev := none -- model: the last event delivered for the ID (= its event state in the topic)
+  lastSpecEv : Option Ev := none -- spec: the last event the handlers must have received
   restorePending : Bool := false  -- the task was restarted: the next message of the ID creates its state anew
 
 structure Out where
@@ -154,7 +155,7 @@ def decideFn (conf : Conf) (k : FlapConsts) : FlapDecide := floatDecide k conf.l
 def flapFn (conf : Conf) (k : FlapConsts) : FlapFn := goFlap k conf.low conf.high
 
 /-- `NewGroup` after a restart: `restoreEventState(id, first.Time(), …)` from the ID's event state in the topic.
-The spec side is untouched: for the property a restart is not an event of the ID's history. -/
+(The spec side resumes at the `restart` line itself: `specRestart` / `flapRestart`.) -/
 def restoreIfPending (d : DS) (k : FlapConsts) (g : GState) (t : Int) : DS × GState :=
   if !g.restorePending then (d, g) else
   let (level, stored, dur) := match g.lastEv with
@@ -193,7 +194,9 @@ def doPoint (d : DS) (k : FlapConsts) (gid : String) (p : Pt) : DS := Id.run do
   match se with
   | some ev => d := { d with specOut := d.specOut.push { id := alertID gid, ev := ev } }
   | none => pure ()
-  return d.setGroup { g with st := st', tr := tr', ft := { ft' with recent := ft'.recent.take c.history }, lastEv := e.orElse (fun _ => g.lastEv) }
+  let ftT : FlapTrack := { ft' with recent := ft'.recent.take c.history }
+  return d.setGroup { g with st := st', tr := tr', ft := ftT,
+                             lastEv := e.orElse (fun _ => g.lastEv), lastSpecEv := se.orElse (fun _ => g.lastSpecEv) }
 
 def doBatch (d : DS) (k : FlapConsts) (gid : String) (b : Batch) : DS := Id.run do
   let c := d.conf.cfg
@@ -239,7 +242,8 @@ def doBatch (d : DS) (k : FlapConsts) (gid : String) (b : Batch) : DS := Id.run 
   match se with
   | some ev => d := { d with specOut := d.specOut.push { id := alertID gid, ev := ev, tmax := b.tmax, npts := b.pts.length } }
   | none => pure ()
-  return d.setGroup { g with st := st', tr := tr', ft := { ft' with recent := ft'.recent.take c.history } }
+  let ftT : FlapTrack := { ft' with recent := ft'.recent.take c.history }
+  return d.setGroup { g with st := st', tr := tr', ft := ftT, lastSpecEv := se.orElse (fun _ => g.lastSpecEv) }
 
 /-! ### comparing with what the implementation did -/
 
@@ -336,7 +340,9 @@ def judge (_id : String) (lines : Array String) : Verdict := Id.run do
       let some pts := parseBatchPts pts | return .badop l
       d := doBatch d k gid { tmax := tmax, pts := pts }
     | ["restart"] =>
-      d := { d with groups := d.groups.map (fun g => { g with restorePending := true }) }
+      let dec := decideFn d.conf k
+      d := { d with groups := d.groups.map (fun g =>
+        { g with restorePending := true, tr := specRestart g.lastSpecEv, ft := flapRestart d.conf.cfg dec g.lastSpecEv }) }
       d := addBr d "restart"
     | ["events"] =>
       let some observed := parseList obs | return .badop l
